@@ -319,7 +319,13 @@ def run_tracker(case):
 
 # ----------------------------------------------------------------------------- Coq rendering
 def cstr(s):
-    return '"' + s + '"'
+    """Enum member names are referred to by constants defined once in the header (NAMES_HEADER):
+    parsing a string literal per message makes the case files several times slower to check."""
+    return "n_" + s
+
+
+ALL_NAMES = sorted(set(BAT_STATES + BAT_RELAYS + INV_STATES + LEVELS))
+NAMES_HEADER = "".join(f'Definition n_{n} : string := "{n}".\n' for n in ALL_NAMES)
 
 
 def c_event(case, entry, obs):
@@ -341,6 +347,7 @@ def c_event(case, entry, obs):
 TRACKER_HEADER = """From Verif Require Import model.BatteryStatus.
 Open Scope string_scope.
 Open Scope Z_scope.
+""" + NAMES_HEADER + """
 (* case: (max_data_age, max_blocking_duration), initial last_msg_timestamp, the recorded
    boundary events with their clock readings, the notification sent while handling each *)
 Definition case_t : Type := ((Z * Z) * Z * list (Z * event) * list (option Z))%type.
@@ -1087,12 +1094,14 @@ class PoolStream(Stream):
 E2E_HEADER = """From Verif Require Import model.BatteryStatus.
 Open Scope string_scope.
 Open Scope Z_scope.
-Fixpoint notifs_upto (t id : Z) (tr : trace) (os : list (option status)) : list (Z * status) :=
+""" + NAMES_HEADER + """
+(* the notifications of one history with the instant each was sent at *)
+Fixpoint timed_notes (tr : trace) (os : list (option status)) : list (Z * status) :=
   match tr, os with
   | (now, _) :: tr', o :: os' =>
       match o with
-      | Some s => if now <=? t then (id, s) :: notifs_upto t id tr' os' else notifs_upto t id tr' os'
-      | None => notifs_upto t id tr' os'
+      | Some s => (now, s) :: timed_notes tr' os'
+      | None => timed_notes tr' os'
       end
   | _, _ => []
   end.
@@ -1105,12 +1114,16 @@ Definition case_t : Type :=
 Definition check (c : case_t) : bool :=
   let '(cf, ts0, bats, snaps, qs) := c in
   let cfg := mkC (fst cf) min_blocking_duration_us (snd cf) in
-  let outs := fun tr => outputs cfg (init cfg ts0) tr in
-  forallb (fun b => let '(id, tr, exp) := b in list_eqb optZ_eqb (out_codes (outs tr)) exp) bats &&
-  let pool_at := fun t => pool_run pool_init
-                   (flat_map (fun b => let '(id, tr, _) := b in notifs_upto t id tr (outs tr)) bats) in
+  (* the model is run once per battery *)
+  let ran := map (fun b => let '(id, tr, exp) := b in (id, tr, outputs cfg (init cfg ts0) tr, exp)) bats in
+  forallb (fun b => let '(id, tr, os, exp) := b in list_eqb optZ_eqb (out_codes os) exp) ran &&
+  (* all notifications of all batteries with their instants; per battery in order *)
+  let notes := flat_map (fun b => let '(id, tr, os, _) := b in
+                           map (fun x => (fst x, (id, snd x))) (timed_notes tr os)) ran in
+  let pool_at := fun t => pool_run pool_init (map snd (filter (fun x => fst x <=? t) notes)) in
   forallb (fun sn => let '(t, w, u) := sn in
-             listZ_eqb (sort_z (p_working (pool_at t))) w && listZ_eqb (sort_z (p_uncertain (pool_at t))) u) snaps &&
+             let p := pool_at t in
+             listZ_eqb (sort_z (p_working p)) w && listZ_eqb (sort_z (p_uncertain p)) u) snaps &&
   forallb (fun q => listZ_eqb (sort_z (get_working_components (pool_at 4000000000000000) (fst q))) (snd q)) qs.
 """
 
